@@ -429,6 +429,7 @@ type simEnv struct {
 	nSent  int
 	labels map[string]bool
 	g0     int // goroutines of the process before any daemon of this case existed
+	syncBound time.Duration
 }
 
 // stopDaemon ends the watcher of the current daemon and waits until its
@@ -452,6 +453,24 @@ func (e *simEnv) newDaemon() {
 	e.done = make(chan any)
 	e.sc.VerifStartWatcher(e.done)
 	time.Sleep(3 * time.Millisecond) // the watcher goroutine registers the directory
+}
+
+// tick runs one daemon tick; false means the call did not return within the
+// bound (bounded liveness: the bound is 5 s, then 15 s more).
+func (e *simEnv) tick(t time.Time) bool {
+	done := make(chan struct{})
+	go func() { e.sc.VerifRunTick(t); close(done) }()
+	select {
+	case <-done:
+		return true
+	case <-time.After(5 * time.Second * time.Duration(sim.LoadFactor())):
+	}
+	select {
+	case <-done:
+		return true
+	case <-time.After(15 * time.Second * time.Duration(sim.LoadFactor())):
+		return false
+	}
 }
 
 // quiesce waits until the goroutines of the last tick have ended.
@@ -478,10 +497,12 @@ func (e *simEnv) syncWatcher() bool {
 	e.f.mu.Unlock()
 	ok := false
 	probeT := time.Date(2001, 1, 1, 0, 0, 0, 0, time.UTC)
-	deadline := time.Now().Add(3 * time.Second * time.Duration(sim.LoadFactor()))
+	deadline := time.Now().Add(e.syncBound)
 	for time.Now().Before(deadline) {
 		base := runtime.NumGoroutine()
-		e.sc.VerifRunTick(probeT)
+		if !e.tick(probeT) {
+			break
+		}
 		quiesce(base)
 		e.f.mu.Lock()
 		seen := e.f.sentinelSeen[name]
@@ -683,9 +704,15 @@ func run(c Case) outcome {
 			}
 			out.labels["daemon-restart"] = true
 		} else if len(seg.Events) > 0 {
+			env.syncBound = 3 * time.Second * time.Duration(sim.LoadFactor())
 			if !env.syncWatcher() {
-				out.incon = "the watcher did not report the sentinel within the bound"
-				return out
+				// bounded liveness, confirmed with a 5x bound: a DAG file added
+				// while the daemon runs must get scheduled
+				env.syncBound *= 5
+				if !env.syncWatcher() {
+					out.msg = fmt.Sprintf("before segment %d: a DAG file added to the directory %v ago is still not scheduled and earlier file events %v are not processed — the daemon no longer follows the DAGs directory", si, env.syncBound, evKinds(seg.Events))
+					return out
+				}
 			}
 		}
 		// where the segment starts
@@ -715,7 +742,10 @@ func run(c Case) outcome {
 			f.mu.Unlock()
 			scheduler.VerifSetFixedTime(wall)
 			baseline := runtime.NumGoroutine()
-			env.sc.VerifRunTick(t)
+			if !env.tick(t) {
+				out.msg = fmt.Sprintf("the daemon's tick for minute %s (segment %d) did not return within 20 s — nothing is scheduled any more", t.Format("2006-01-02 15:04"), si)
+				return out
+			}
 			if !quiesce(baseline) {
 				out.incon = "the goroutines of a tick did not end within the bound"
 				return out
@@ -846,6 +876,14 @@ func run(c Case) outcome {
 	f.mu.Unlock()
 	scheduler.VerifSetFixedTime(time.Time{})
 	return out
+}
+
+func evKinds(evs []FileEvent) []string {
+	var k []string
+	for _, e := range evs {
+		k = append(k, e.Kind)
+	}
+	return k
 }
 
 func lastStr(s *dagState) string {
